@@ -65,7 +65,7 @@ class Opts(object):
         # names of known-finding regions the generator must stay out of; the two defaults are
         # parser/compile-layer defects that hit every codec (recorded in known_findings/C19.json)
         self.avoid = set()
-        self.base_avoid = {'numeric_string_default', 'group_default_strings', 'ref_bool_default'}
+        self.base_avoid = {'numeric_string_default', 'ref_bool_default'}
         self.__dict__.update(kw)
         self.avoid = set(self.avoid) | set(self.base_avoid)
 
